@@ -69,3 +69,31 @@ Proof.
   intro Hd. unfold quad_det, TOL in Hd.
   unfold cfobj. pyrun_using ltac:(first [exact Hd | pylra]). reflexivity.
 Qed.
+
+(* explicit closed forms, as the code writes them *)
+Lemma linear_value xl yl P Q Rr S T U V W N :
+  TOL <= Rabs (lin_det (IZR N) P Q) ->
+  CurveFitting_linear_fitting Rops (cfobj xl yl P Q Rr S T U V W N)
+  = VTuple [VFloat ((IZR N * U - P * T) / lin_det (IZR N) P Q);
+            VFloat ((T * Q - P * U) / lin_det (IZR N) P Q)].
+Proof.
+  intro Hd. unfold lin_det, TOL in *.
+  unfold cfobj. pyrun_using ltac:(first [exact Hd | pylra]). reflexivity.
+Qed.
+
+Definition quad_a N P Q Rr S T U V :=
+  (N * Q * V + P * Rr * T + P * Q * U - Q * Q * T - P * P * V - N * Rr * U) / quad_det N P Q Rr S.
+Definition quad_b N P Q Rr S T U V :=
+  (N * S * U + P * Q * V + Q * Rr * T - Q * Q * U - P * S * T - N * Rr * V) / quad_det N P Q Rr S.
+Definition quad_c N P Q Rr S T U V :=
+  (Q * S * T + Q * Rr * U + P * Rr * V - Q * Q * V - P * S * U - Rr * Rr * T) / quad_det N P Q Rr S.
+
+Lemma quadratic_value xl yl P Q Rr S T U V W N :
+  TOL <= Rabs (quad_det (IZR N) P Q Rr S) ->
+  CurveFitting_quadratic_fitting Rops (cfobj xl yl P Q Rr S T U V W N)
+  = VTuple [VFloat (quad_a (IZR N) P Q Rr S T U V); VFloat (quad_b (IZR N) P Q Rr S T U V);
+            VFloat (quad_c (IZR N) P Q Rr S T U V)].
+Proof.
+  intro Hd. unfold quad_a, quad_b, quad_c, quad_det, TOL in *.
+  unfold cfobj. pyrun_using ltac:(first [exact Hd | pylra]). reflexivity.
+Qed.
